@@ -218,6 +218,12 @@ impl Driver {
     }
 
     pub fn violation(&mut self, sig: &str, detail: String) {
+        // C26 follows derived data to the committed state; id *prediction* is C06's business and
+        // must not cut a C26 history short before the cards are looked at
+        if self.cfg.prop == "C26" && sig.starts_with("next-frame-id") {
+            self.outcomes.push("ignored:next-frame-id".into());
+            return;
+        }
         self.viol.push(json!({"sig": sig, "detail": detail, "step": self.step}));
     }
 
